@@ -351,8 +351,14 @@ def _native_generator_witness(seed):
 
 # ---------------------------------------------------------------------------- mode equivalence (Engine B)
 
-def loss_modes(kind, system, mode, with_parts, eq_order=("a", "b")):
-    """eq_order: the order in which the caller wrote params.eq_params (jit rebuilds dictionaries in sorted key order, an
+PY_WEIGHTS = dict(wd=1.5, wi=2.0, wo=0.25, wn=0.5, wb=0)       # plain Python numbers, one of them the integer 0
+
+
+def loss_modes(kind, system, mode, with_parts, eq_order=("a", "b"), python_weights=False):
+    """python_weights: the loss weights are plain Python numbers (they stay Python numbers when the loss is used eagerly or
+    closed over, and become traced scalars when the loss is an argument of a jitted function) and the network has two
+    observed outputs; a NaN among the border points probes that a term switched off by a zero weight is treated alike.
+    eq_order: the order in which the caller wrote params.eq_params (jit rebuilds dictionaries in sorted key order, an
     eager call sees them as written: the result is the same)"""
     def build():
         if system:
@@ -365,11 +371,14 @@ def loss_modes(kind, system, mode, with_parts, eq_order=("a", "b")):
                     batch = eqx.tree_at(lambda b: b.param_batch_dict, batch, {"a": a["acol"]}, is_leaf=lambda x: x is None)
                 return loss, pd, batch
         else:
-            S = Scen(kind, B=2, eq_order=eq_order)
+            S = Scen(kind, B=2, eq_order=eq_order, m=2 if python_weights else 1)
             extra = [Inp("acol", (2, 1))]
             names = S.names(extra=extra)
             inputs = S.inputs(extra=extra)
             def call(a):
+                if python_weights:
+                    a = dict(a, **PY_WEIGHTS)
+                    return S.loss_batch(a, on=TERMS[kind])
                 if with_parts:
                     return S.loss_batch(a, param_batch={"b": a["acol"]}, obs_eq={"a": a["acol"]}, on=c12.ON[kind])
                 return S.loss_batch(a, on=[t for t in TERMS[kind] if t != "observations"])
@@ -386,11 +395,17 @@ def loss_modes(kind, system, mode, with_parts, eq_order=("a", "b")):
             return v, aux
         def spec(*syms):
             return JI.run_symbolic(eager, tuple(syms))[0]
-        return dict(fn=variant, spec=spec, inputs=inputs)
+        out = dict(fn=variant, spec=spec, inputs=inputs)
+        if python_weights:
+            out["native_reference"] = eager
+            if kind != "ODE":
+                out["probe_nonfinite"] = ["bb"]
+        return out
     nm = ("System" if system else "") + {"ODE": "LossODE", "statio": "LossPDE" if system else "LossPDEStatio",
                                          "nonstatio": "LossPDE" if system else "LossPDENonStatio"}[kind]
     return EqObligation(f"C20/modes/{nm}.evaluate[{kind},{mode}==eager,param_and_obs_parts={int(with_parts)}"
-                        f"{'' if tuple(eq_order) == ('a', 'b') else ',eq_params_written_' + '/'.join(eq_order)}]", build,
+                        f"{'' if tuple(eq_order) == ('a', 'b') else ',eq_params_written_' + '/'.join(eq_order)}"
+                        f"{',python_number_weights' if python_weights else ''}]", build,
                         [(L if kind == "ODE" else PD) + nm + ".evaluate"])
 
 
@@ -432,6 +447,7 @@ def obligations(tier):
             obs.append(loss_modes(kind, system, "jit_call", False))
         for mode in ("jit", "value_and_grad"):
             obs.append(loss_modes(kind, False, mode, True, eq_order=("b", "a")))
+            obs.append(loss_modes(kind, False, mode, False, python_weights=True))
     for name in _generators():
         for calls in ((0, 2) if tier == "quick" else (0, 1, 2, 3)):
             obs.append(generator_modes(name, calls))
